@@ -623,3 +623,16 @@ V("c04d-pivot-tolerance", "C04", {"rule": "C04d", "contains": "floating-threshol
   ("src/pfaffian.cpp", "        if(element != 0) {", "        if(std::abs(element) > 1e-12) {"))
 V("c04d-preserving-exact-test-rewritten", "C04", "silent",
   ("src/pfaffian.cpp", "        if(element != 0) {", "        if(!(element == 0)) {"))
+
+# --- robustness of the added rules: value-preserving rewrites stay silent, unknown idioms are undecided (exit 2), never violations
+V("c03c-preserving-float-wrapper", "C03", "silent",
+  (PSTEPS, "            Branch(state=None, outcome=outcome, frequency=probability)\n", "            Branch(state=None, outcome=outcome, frequency=float(probability))\n"))
+V("c03c-rounded-weight", "C03", {"rule": "C03c", "contains": "shots-none-weight"},
+  (PSTEPS, "            Branch(state=None, outcome=outcome, frequency=probability)\n", "            Branch(state=None, outcome=outcome, frequency=round(probability, 12))\n"))
+V("c19b-preserving-abs-bound-to-name", "C19", "silent",
+  (DR, "    if not np.isclose(theta, 0.0):", "    magnitude = abs(theta)\n    if magnitude > 1e-12:"))
+V("c18f-unknown-map-idiom-is-undecided", "C18", {"exit": 2},
+  (PREPS2, "            for occupation_numbers, coefficient in other.params[\n                \"fock_amplitude_map\"\n            ].items():\n                coefficient *= other.params[\"coefficient\"]",
+   "            for occupation_numbers, coefficient in dict(other.params[\"fock_amplitude_map\"]).items():\n                coefficient *= other.params[\"coefficient\"]"))
+V("c07b-preserving-doc-tfrac", "C07", "silent",
+  (GATES, "        S_{(c)} = \\frac{1}{2} \\begin{bmatrix}\n        e^{i \\phi_{ext} }", "        S_{(c)} = \\tfrac{1}{2} \\, \\begin{bmatrix}\n        e^{i \\phi_{ext} }"))
